@@ -497,3 +497,534 @@ Proof.
   intros ND U FX. apply absorb_all. assert (S := tloop_synced loc libs ND root U).
   rewrite Forall_forall in *. intros l I. eapply synced_find; [apply FX; exact I|apply S; exact I].
 Qed.
+
+(* ------------------------------------------------------------------ the whole save *)
+
+Definition root0 (m : model) (t : list rchild) : list rchild := asset_el m :: remove_first a_asset t.
+Definition fin (sc : option atom) (R : list rchild) : list rchild :=
+  let R3 := update_first a_scene clear_el (ensure_scene R) in
+  match sc with None => R3 | Some sid => update_first a_scene (set_kids [(0%N, sid)]) R3 end.
+Definition touchm (m : model) : model := Model (masset m) (map touchlib (mlibs m)) (mscene m).
+Definition final (m : model) (t : list rchild) : list rchild :=
+  fin (mscene m) (tloop (library_loc (root0 m t)) (mlibs m) (root0 m t)).
+
+Lemma save_in_shape fc m t s' r : save_in fc (St m t) = (s', r) ->
+  let loc := library_loc (root0 m t) in
+  masset (smodel s') = masset m /\ mscene (smodel s') = mscene m /\
+  Forall2 pt_lib (mlibs (smodel s')) (mlibs m) /\
+  map lview (mlibs (smodel s')) = map lview (mlibs m) /\
+  ((exists sc, stree s' = fin sc (tloop loc (mlibs m) (root0 m t)) /\
+               (r = Ok tt -> sc = scene_in fc (mscene m))) \/
+   (exists pre lj post g, mlibs m = pre ++ lj :: post /\ larr lj <> [] /\ r <> Ok tt /\
+        stree s' = stepF loc lj g (tloop loc pre (root0 m t)))).
+Proof.
+  unfold save_in. simpl smodel. simpl stree. fold (root0 m t).
+  change (insert_at 0 (asset_el m) (remove_first a_asset t)) with (root0 m t).
+  destruct (libs_loop (fbad fc) (library_loc (root0 m t)) (mlibs m) (root0 m t)) as [[root1 libs'] x] eqn:E.
+  destruct (libs_loop_shape _ _ _ _ _ _ _ E) as (F & V & A & B).
+  destruct x as [e|].
+  - intro X. inversion X; subst. simpl.
+    split; [reflexivity|]. split; [reflexivity|]. split; [exact F|]. split; [exact V|].
+    right. destruct (B e eq_refl) as (pre & lj & post & g & L & NE & G).
+    exists pre, lj, post, g. split; [exact L|]. split; [exact NE|]. split; [discriminate|exact G].
+  - destruct (A eq_refl) as [A1 A2]. subst root1.
+    destruct (scene_in fc (mscene m)) as [sid|] eqn:ES.
+    + destruct (existsb (fun o => N.eqb (oid o) sid) (scenes_of m)); intro X; inversion X; subst; simpl;
+        (split; [reflexivity|]); (split; [reflexivity|]); (split; [exact F|]); (split; [exact V|]); left.
+      * exists (Some sid). split; [reflexivity|intros _; reflexivity].
+      * exists None. split; [reflexivity|intro; discriminate].
+    + intro X; inversion X; subst; simpl.
+      split; [reflexivity|]. split; [reflexivity|]. split; [exact F|]. split; [exact V|]. left.
+      exists None. split; [reflexivity|intros _; reflexivity].
+Qed.
+
+(* saving never changes what the user can see of the model *)
+Lemma save_keeps_view fc s : view (smodel (fst (save_in fc s))) = view (smodel s).
+Proof.
+  destruct s as [m t]. destruct (save_in fc (St m t)) as [s' r] eqn:E.
+  destruct (save_in_shape _ _ _ _ _ E) as (A & S & _ & V & _).
+  simpl. unfold view. rewrite A, S, V. reflexivity.
+Qed.
+
+Lemma libs_loop_nofault loc libs root :
+  snd (libs_loop (fun _ => None) loc libs root) = None.
+Proof.
+  revert root. induction libs as [|l rest IH]; intro root; [reflexivity|]. simpl.
+  destruct (lib_step (fun _ => None) loc l root) as [[root1 l1] y] eqn:E1.
+  assert (Y : y = None).
+  { unfold lib_step in E1.
+    assert (SA : forall rc arr, snd (save_arr (fun _ => None) rc arr) = None).
+    { intros rc arr. induction arr as [|o r IHr]; [reflexivity|]. simpl.
+      destruct (save_arr (fun _ => None) rc r) as [[a b] c]. simpl in *. exact IHr. }
+    destruct (find_tag (ltag l) root), (larr l) eqn:EA; try (inversion E1; reflexivity);
+      rewrite <- EA in E1;
+      destruct (save_arr (fun _ => None) (lrec l) (larr l)) as [[a b] c] eqn:ES;
+      specialize (SA (lrec l) (larr l)); rewrite ES in SA; simpl in SA; subst c;
+      inversion E1; reflexivity. }
+  subst y. specialize (IH root1).
+  destruct (libs_loop (fun _ => None) loc rest root1) as [[a b] c]. simpl in *. exact IH.
+Qed.
+
+Lemma save_healthy m t : healthy m -> save (St m t) = (St (touchm m) (final m t), Ok tt).
+Proof.
+  intro H. unfold save, save_in. simpl smodel. simpl stree.
+  change (insert_at 0 (asset_el m) (remove_first a_asset t)) with (root0 m t).
+  assert (NF := libs_loop_nofault (library_loc (root0 m t)) (mlibs m) (root0 m t)).
+  simpl fbad.
+  destruct (libs_loop (fun _ => None) (library_loc (root0 m t)) (mlibs m) (root0 m t)) as [[root1 libs'] x] eqn:E.
+  simpl in NF. subst x.
+  destruct (libs_loop_shape _ _ _ _ _ _ _ E) as (_ & _ & A & _).
+  destruct (A eq_refl) as [A1 A2]. subst.
+  unfold final, fin, touchm, scene_in, healthy in *. simpl.
+  destruct (mscene m) as [sid|]; [rewrite H|]; reflexivity.
+Qed.
+
+(* ---- heads and the insertion position *)
+Definition headed (a : rchild) (R : list rchild) : Prop := exists rest, R = a :: rest.
+
+Lemma step0_headed loc l a R : 1 <= loc -> rtag a <> ltag l -> headed a R -> headed a (step0 loc l R).
+Proof.
+  intros L N [rest E]. subst R. apply has_tag_neq in N. unfold step0.
+  destruct (find_tag (ltag l) (a :: rest)), (larr l); simpl; try rewrite N; try (eexists; reflexivity).
+  destruct loc; [lia|]. simpl. eexists; reflexivity.
+Qed.
+
+Lemma stepF_headed loc l g a R : 1 <= loc -> rtag a <> ltag l -> headed a R -> headed a (stepF loc l g R).
+Proof.
+  intros L N [rest E]. subst R. apply has_tag_neq in N. unfold stepF.
+  destruct (find_tag (ltag l) (a :: rest)); simpl; try rewrite N; try (eexists; reflexivity).
+  destruct loc; [lia|]. simpl. eexists; reflexivity.
+Qed.
+
+Lemma tloop_headed loc libs a : 1 <= loc -> ~ In (rtag a) (map ltag libs) -> forall R,
+  headed a R -> headed a (tloop loc libs R).
+Proof.
+  intros L. induction libs as [|l rest IH]; intros NI R H; [exact H|]. simpl.
+  apply IH; [intro X; apply NI; right; exact X|].
+  apply step0_headed; [exact L| |exact H]. intro X. apply NI. left. symmetry. exact X.
+Qed.
+
+Lemma fin_headed sc a R : rtag a <> a_scene -> headed a R -> headed a (fin sc R).
+Proof.
+  intros N [rest E]. subst R. apply has_tag_neq in N. unfold fin, ensure_scene.
+  assert (H1 : headed a (update_first a_scene clear_el
+                (match find_tag a_scene (a :: rest) with Some _ => a :: rest | None => (a :: rest) ++ [new_el a_scene] end))).
+  { destruct (find_tag a_scene (a :: rest)); simpl; rewrite N; eexists; reflexivity. }
+  destruct sc; [|exact H1]. destruct H1 as [r1 E1]. rewrite E1. simpl. rewrite N. eexists; reflexivity.
+Qed.
+
+Lemma loc_aux_none i loc R : count_tag a_asset R = 0 -> loc_aux i loc R = loc.
+Proof.
+  revert i loc. induction R as [|c r IH]; intros i loc C; [reflexivity|]. simpl.
+  rewrite count_cons in C. destruct (has_tag a_asset c); [simpl in C; discriminate|]. apply IH. exact C.
+Qed.
+
+Lemma library_loc_headed a rest : rtag a = a_asset -> count_tag a_asset (a :: rest) <= 1 ->
+  library_loc (a :: rest) = 1.
+Proof.
+  intros T C. unfold library_loc. simpl. apply has_tag_eq in T. rewrite T.
+  rewrite count_cons, T in C. apply loc_aux_none. lia.
+Qed.
+
+Lemma root0_headed_id m R : headed (asset_el m) R -> root0 m R = R.
+Proof. intros [rest E]. subst R. reflexivity. Qed.
+
+(* ---- scene step *)
+Lemma ensure_present R : find_tag a_scene (ensure_scene R) <> None.
+Proof.
+  unfold ensure_scene. destruct (find_tag a_scene R) eqn:F; [rewrite F; discriminate|].
+  rewrite find_tag_app, F. simpl. discriminate.
+Qed.
+
+Lemma ensure_id R : find_tag a_scene R <> None -> ensure_scene R = R.
+Proof. unfold ensure_scene. destruct (find_tag a_scene R); [reflexivity|congruence]. Qed.
+
+Lemma fin_present sc R : find_tag a_scene (fin sc R) <> None.
+Proof.
+  assert (P := ensure_present R). unfold fin.
+  assert (P3 : find_tag a_scene (update_first a_scene clear_el (ensure_scene R)) <> None).
+  { rewrite find_tag_update_same by apply keeps_clear. destruct (find_tag a_scene (ensure_scene R)); [discriminate|congruence]. }
+  destruct sc; [|exact P3].
+  rewrite find_tag_update_same by apply keeps_set_kids.
+  destruct (find_tag a_scene (update_first a_scene clear_el (ensure_scene R))); [discriminate|congruence].
+Qed.
+
+Lemma fin_fin a b R : fin a (fin b R) = fin a R.
+Proof.
+  unfold fin at 1. rewrite ensure_id by apply fin_present.
+  assert (X : update_first a_scene clear_el (fin b R) = update_first a_scene clear_el (ensure_scene R)).
+  { unfold fin. destruct b.
+    - rewrite !update_first_twice by (first [apply keeps_set_kids|apply keeps_clear|intro c; reflexivity]).
+      apply update_first_ext. intro c. reflexivity.
+    - rewrite update_first_twice by apply keeps_clear. apply update_first_ext. intro c. reflexivity. }
+  rewrite X. reflexivity.
+Qed.
+
+Lemma find_fin_other sc R t : t <> a_scene -> find_tag t (fin sc R) = find_tag t R.
+Proof.
+  intro N. unfold fin.
+  assert (E : find_tag t (update_first a_scene clear_el (ensure_scene R)) = find_tag t R).
+  { rewrite find_tag_update_other; [|apply keeps_clear|exact N].
+    unfold ensure_scene. destruct (find_tag a_scene R); [reflexivity|].
+    rewrite find_tag_app. destruct (find_tag t R); [reflexivity|].
+    assert (HT : has_tag t (new_el a_scene) = false) by (apply has_tag_neq; simpl; congruence).
+    rewrite HT. reflexivity. }
+  destruct sc; [|exact E]. rewrite find_tag_update_other; [exact E|apply keeps_set_kids|exact N].
+Qed.
+
+Lemma count_fin_le sc R t : count_tag t R <= 1 -> count_tag t (fin sc R) <= 1.
+Proof.
+  intro C. unfold fin.
+  assert (E : count_tag t (update_first a_scene clear_el (ensure_scene R)) <= 1).
+  { rewrite count_update by apply keeps_clear. unfold ensure_scene.
+    destruct (find_tag a_scene R) eqn:F; [exact C|]. rewrite count_app1.
+    destruct (has_tag t (new_el a_scene)) eqn:X; [|lia]. apply has_tag_eq in X. simpl in X. subst t.
+    apply count_zero_find in F. lia. }
+  destruct sc; [|exact E]. rewrite count_update by apply keeps_set_kids. exact E.
+Qed.
+
+(* ---- well-formedness *)
+Lemma managed_lib m l : In l (mlibs m) -> managed m (ltag l) = true.
+Proof.
+  intro I. unfold managed. apply orb_true_iff. right. apply existsb_exists. exists l.
+  split; [exact I|apply N.eqb_refl].
+Qed.
+Lemma managed_asset m : managed m a_asset = true.
+Proof. unfold managed. rewrite N.eqb_refl. reflexivity. Qed.
+Lemma managed_scene m : managed m a_scene = true.
+Proof. unfold managed. rewrite N.eqb_refl. rewrite orb_true_r. reflexivity. Qed.
+
+Lemma count_root0_le m t x : count_tag x t <= 1 -> count_tag x (root0 m t) <= 1.
+Proof.
+  intro C. unfold root0. rewrite count_cons.
+  destruct (has_tag x (asset_el m)) eqn:E.
+  - apply has_tag_eq in E. simpl in E. subst x.
+    assert (Z : count_tag a_asset (remove_first a_asset t) = 0).
+    { apply count_zero_find. apply find_tag_remove_same. exact C. }
+    rewrite Z. apply le_n.
+  - simpl. eapply Nat.le_trans; [apply count_remove_le|exact C].
+Qed.
+
+Lemma count_tloop_le loc libs root x : count_tag x root <= 1 -> count_tag x (tloop loc libs root) <= 1.
+Proof.
+  revert root. induction libs as [|l rest IH]; intros root C; [exact C|]. simpl.
+  apply IH. apply count_step0_le; intros; exact C.
+Qed.
+
+(* every tree a save attempt can leave is well-formed again *)
+Lemma wf_root_save fc m t : wf_root m t -> wf_root m (stree (fst (save_in fc (St m t)))).
+Proof.
+  intros W x M. destruct (save_in fc (St m t)) as [s' r] eqn:E.
+  destruct (save_in_shape _ _ _ _ _ E) as (_ & _ & _ & _ & [(sc & T & _)|(pre & lj & post & g & _ & _ & _ & T)]);
+    simpl; rewrite T.
+  - apply count_fin_le, count_tloop_le, count_root0_le, W, M.
+  - apply count_stepF_le, count_tloop_le, count_root0_le, W, M.
+Qed.
+
+Lemma final_pt m1 m t1 : masset m1 = masset m -> mscene m1 = mscene m ->
+  Forall2 pt_lib (mlibs m1) (mlibs m) -> final m1 t1 = final m t1.
+Proof.
+  intros A S F. unfold final, root0, asset_el. rewrite A, S. rewrite (tloop_pt _ _ _ _ F). reflexivity.
+Qed.
+
+(* ---- confluence: whatever a save attempt in any fault context leaves behind, the next
+   complete save gives what a complete save of the original state gives *)
+Theorem save_confluent fc s :
+  wf_libs (smodel s) -> wf_root (smodel s) (stree s) -> healthy (smodel s) ->
+  save (fst (save_in fc s)) = save s.
+Proof.
+  destruct s as [m t]. simpl. intros (ND & NA & NS) W H.
+  destruct (save_in fc (St m t)) as [[m1 t1] r] eqn:E.
+  destruct (save_in_shape _ _ _ _ _ E) as (A & S & F & V & T). simpl in A, S, F, V, T. simpl fst.
+  (* the model side *)
+  assert (TM : touchm m1 = touchm m).
+  { unfold touchm. rewrite A, S. f_equal.
+    clear - F. induction F as [|l' l a' a P F IH]; [reflexivity|]. simpl. rewrite IH, (pt_lib_touchlib _ _ P). reflexivity. }
+  assert (H1 : healthy m1).
+  { unfold healthy in *. rewrite S. destruct (mscene m) as [sid|]; [|exact I].
+    rewrite <- H. unfold scenes_of.
+    clear - V. revert V. generalize (mlibs m). induction (mlibs m1) as [|l1 r1 IH]; intros [|l r] V; try discriminate; [reflexivity|].
+    simpl in V. inversion V as [[VT VR VA]]. simpl. rewrite VT.
+    destruct (N.eqb (ltag l) a_library_visual_scenes); [|apply IH; assumption].
+    simpl. rewrite !existsb_app. f_equal; [|apply IH; assumption].
+    clear - VA. revert VA. generalize (larr l). induction (larr l1) as [|o1 q1 IHq]; intros [|o q] VA; try discriminate; [reflexivity|].
+    simpl in VA. inversion VA as [[U I C Q]]. simpl. rewrite I. f_equal. apply IHq. exact Q. }
+  rewrite (save_healthy m1 t1 H1), (save_healthy m t H), TM. f_equal. f_equal.
+  rewrite (final_pt m1 m t1 A S F).
+  (* the tree side *)
+  set (R0 := root0 m t) in *. set (loc := library_loc R0) in *.
+  assert (HA : rtag (asset_el m) = a_asset) by reflexivity.
+  assert (C0 : forall x, managed m x = true -> count_tag x R0 <= 1).
+  { intros x M. apply count_root0_le, W, M. }
+  assert (L1 : loc = 1).
+  { unfold loc, R0, root0. apply library_loc_headed; [exact HA|]. apply (C0 a_asset), managed_asset. }
+  assert (U0 : uniq_tags (mlibs m) R0).
+  { intros l I. apply C0, managed_lib, I. }
+  assert (HD0 : headed (asset_el m) R0) by (eexists; reflexivity).
+  assert (HD1 : headed (asset_el m) t1).
+  { destruct T as [(sc & T & _)|(pre & lj & post & g & L & _ & _ & T)]; rewrite T.
+    - apply fin_headed; [discriminate|]. apply tloop_headed; [lia|exact NA|exact HD0].
+    - apply stepF_headed; [lia| |].
+      + simpl. intro X. apply NA. rewrite L, map_app. apply in_or_app. right. left. symmetry. exact X.
+      + apply tloop_headed; [lia| |exact HD0].
+        intro X. apply NA. rewrite L, map_app. apply in_or_app. left. exact X. }
+  assert (C1 : count_tag a_asset t1 <= 1).
+  { assert (W1 := wf_root_save fc m t W). rewrite E in W1. simpl in W1. apply W1, managed_asset. }
+  assert (R1 : root0 m t1 = t1) by (apply root0_headed_id; exact HD1).
+  assert (LL : library_loc t1 = loc).
+  { rewrite L1. destruct HD1 as [rest X]. rewrite X in *. apply library_loc_headed; [exact HA|exact C1]. }
+  unfold final. rewrite R1, LL. fold R0. fold loc.
+  destruct T as [(sc & T & _)|(pre & lj & post & g & L & NE & _ & T)]; rewrite T.
+  - rewrite (tloop_idem_gen loc (mlibs m) R0); [apply fin_fin|exact ND|exact U0|].
+    intros l I. apply find_fin_other. intro X. apply NS. rewrite <- X. apply in_map. exact I.
+  - f_equal. rewrite L. apply tloop_confluent; try rewrite <- L; assumption.
+Qed.
+
+(* saving again without an edit in between changes nothing at all *)
+Theorem save_idempotent s s1 :
+  wf_libs (smodel s) -> wf_root (smodel s) (stree s) -> save s = (s1, Ok tt) -> save s1 = (s1, Ok tt).
+Proof.
+  intros WL WR E.
+  assert (H : healthy (smodel s)).
+  { destruct s as [m t]. unfold save, save_in in E. simpl in *.
+    destruct (libs_loop (fun _ => None) _ (mlibs m) _) as [[root1 libs'] x].
+    destruct x; [discriminate|]. unfold healthy, scene_in in *. simpl in *.
+    destruct (mscene m) as [sid|]; [|exact I].
+    destruct (existsb _ (scenes_of m)); [reflexivity|discriminate]. }
+  assert (C := save_confluent no_fault s WL WR H). fold (save s) in C. rewrite E in C. simpl in C.
+  exact C.
+Qed.
+
+(* ---- unmanaged children *)
+Section Unmanaged.
+  Variable q : atom -> bool.
+  Let p (c : rchild) := q (rtag c).
+
+  Lemma filter_remove_first t R : q t = false -> filter p (remove_first t R) = filter p R.
+  Proof.
+    intro Q. induction R as [|c r IH]; [reflexivity|]. simpl.
+    destruct (has_tag t c) eqn:E.
+    - apply has_tag_eq in E. unfold p at 2. rewrite E, Q. reflexivity.
+    - simpl. rewrite IH. reflexivity.
+  Qed.
+
+  Lemma filter_update_first t f R : keeps_tag f -> q t = false -> filter p (update_first t f R) = filter p R.
+  Proof.
+    intros K Q. induction R as [|c r IH]; [reflexivity|]. simpl.
+    destruct (has_tag t c) eqn:E.
+    - apply has_tag_eq in E. simpl.
+      assert (P1 : p (f c) = false) by (unfold p; rewrite K, E; exact Q).
+      assert (P2 : p c = false) by (unfold p; rewrite E; exact Q).
+      rewrite P1, P2. reflexivity.
+    - simpl. rewrite IH. reflexivity.
+  Qed.
+
+  Lemma filter_insert_at n x R : q (rtag x) = false -> filter p (insert_at n x R) = filter p R.
+  Proof.
+    intro Q. assert (P1 : p x = false) by exact Q. revert R. induction n as [|n IH]; intro R.
+    - destruct R; simpl; rewrite P1; reflexivity.
+    - destruct R as [|c r]; simpl.
+      + rewrite P1. reflexivity.
+      + rewrite IH. reflexivity.
+  Qed.
+
+  Lemma filter_step0 loc l R : q (ltag l) = false -> filter p (step0 loc l R) = filter p R.
+  Proof.
+    intro Q. unfold step0. destruct (find_tag (ltag l) R), (larr l); try reflexivity.
+    - apply filter_remove_first; exact Q.
+    - apply filter_update_first; [apply keeps_set_kids|exact Q].
+    - apply filter_insert_at; exact Q.
+  Qed.
+
+  Lemma filter_stepF loc l g R : q (ltag l) = false -> filter p (stepF loc l g R) = filter p R.
+  Proof.
+    intro Q. unfold stepF. destruct (find_tag (ltag l) R).
+    - apply filter_update_first; [intro c; reflexivity|exact Q].
+    - apply filter_insert_at; exact Q.
+  Qed.
+
+  Lemma filter_tloop loc libs R : (forall l, In l libs -> q (ltag l) = false) ->
+    filter p (tloop loc libs R) = filter p R.
+  Proof.
+    revert R. induction libs as [|l rest IH]; intros R Q; [reflexivity|]. simpl.
+    rewrite IH by (intros; apply Q; right; assumption).
+    apply filter_step0. apply Q. left. reflexivity.
+  Qed.
+
+  Lemma filter_fin sc R : q a_scene = false -> filter p (fin sc R) = filter p R.
+  Proof.
+    intro Q. unfold fin.
+    assert (E : filter p (update_first a_scene clear_el (ensure_scene R)) = filter p R).
+    { rewrite filter_update_first; [|apply keeps_clear|exact Q]. unfold ensure_scene.
+      destruct (find_tag a_scene R); [reflexivity|]. rewrite filter_app.
+      assert (P1 : p (new_el a_scene) = false) by exact Q. simpl. rewrite P1. apply app_nil_r. }
+    destruct sc; [|exact E]. rewrite filter_update_first; [exact E|apply keeps_set_kids|exact Q].
+  Qed.
+
+  Lemma filter_root0 m t : q a_asset = false -> filter p (root0 m t) = filter p t.
+  Proof.
+    intro Q. unfold root0. assert (P1 : p (asset_el m) = false) by exact Q. simpl. rewrite P1.
+    apply filter_remove_first. exact Q.
+  Qed.
+End Unmanaged.
+
+(* root children outside <asset>, the managed libraries and <scene> keep identity, order and
+   subtree - after a complete save and after an interrupted one alike *)
+Theorem unmanaged_preserved fc s :
+  unmanaged_children (smodel s) (stree (fst (save_in fc s))) = unmanaged_children (smodel s) (stree s).
+Proof.
+  destruct s as [m t]. simpl. destruct (save_in fc (St m t)) as [s' r] eqn:E.
+  destruct (save_in_shape _ _ _ _ _ E) as (_ & _ & _ & _ & T). simpl.
+  unfold unmanaged_children.
+  set (q := fun x => negb (managed m x)).
+  assert (QA : q a_asset = false) by (unfold q; rewrite managed_asset; reflexivity).
+  assert (QS : q a_scene = false) by (unfold q; rewrite managed_scene; reflexivity).
+  assert (QL : forall l, In l (mlibs m) -> q (ltag l) = false).
+  { intros l I. unfold q. rewrite (managed_lib m l I). reflexivity. }
+  change (filter (fun c => negb (managed m (rtag c)))) with (filter (fun c => q (rtag c))).
+  destruct T as [(sc & T & _)|(pre & lj & post & g & L & _ & _ & T)]; rewrite T.
+  - rewrite filter_fin, filter_tloop, filter_root0; auto.
+  - rewrite filter_stepF, filter_tloop, filter_root0; auto.
+    + intros l I. apply QL. rewrite L. apply in_or_app. left. exact I.
+    + apply QL. rewrite L. apply in_or_app. right. left. reflexivity.
+Qed.
+
+(* ---- the tree after a successful save says what the model says (SPEC [lib_synced]) *)
+Theorem save_syncs s s1 :
+  wf_libs (smodel s) -> wf_root (smodel s) (stree s) -> save s = (s1, Ok tt) ->
+  Forall (lib_synced (stree s1)) (mlibs (smodel s)) /\
+  hd_error (stree s1) = Some (asset_el (smodel s)) /\
+  exists c, find_tag a_scene (stree s1) = Some c /\ rsub c = 0%N /\
+            rkids c = match mscene (smodel s) with Some sid => [(0%N, sid)] | None => [] end.
+Proof.
+  destruct s as [m t]. simpl. intros (ND & NA & NS) W E.
+  destruct (save_in_shape _ _ _ _ _ E) as (_ & _ & _ & _ & [(sc & T & SC)|(pre & lj & post & g & _ & _ & X & _)]);
+    [|congruence].
+  specialize (SC eq_refl). simpl in SC. unfold scene_in in SC. simpl in SC. subst sc.
+  rewrite T. set (R0 := root0 m t). set (loc := library_loc R0).
+  assert (C0 : forall x, managed m x = true -> count_tag x R0 <= 1) by (intros x M; apply count_root0_le, W, M).
+  assert (U0 : uniq_tags (mlibs m) R0) by (intros l I; apply C0, managed_lib, I).
+  split; [|split].
+  - assert (S := tloop_synced loc (mlibs m) ND R0 U0). rewrite Forall_forall in *. intros l I.
+    eapply synced_find; [|apply S; exact I]. apply find_fin_other. intro Y. apply NS. rewrite <- Y. apply in_map. exact I.
+  - assert (L1 : loc = 1).
+    { unfold loc, R0, root0. apply library_loc_headed; [reflexivity|]. apply (C0 a_asset), managed_asset. }
+    assert (HD : headed (asset_el m) (fin (mscene m) (tloop loc (mlibs m) R0))).
+    { apply fin_headed; [discriminate|]. apply tloop_headed; [lia|exact NA|eexists; reflexivity]. }
+    destruct HD as [rest HD]. rewrite HD. reflexivity.
+  - unfold fin. set (Y := tloop loc (mlibs m) R0).
+    assert (P := ensure_present Y). destruct (find_tag a_scene (ensure_scene Y)) as [c|] eqn:F; [|congruence].
+    destruct (mscene m) as [sid|].
+    + exists (set_kids [(0%N, sid)] (clear_el c)).
+      rewrite !find_tag_update_same by (first [apply keeps_set_kids|apply keeps_clear]). rewrite F.
+      split; [reflexivity|split; reflexivity].
+    + exists (clear_el c). rewrite find_tag_update_same by apply keeps_clear. rewrite F.
+      split; [reflexivity|split; reflexivity].
+Qed.
+
+(* ------------------------------------------------------------------ writes and histories *)
+
+Lemma write_in_state fc d s : fst (fst (write_in fc d s)) = fst (save_in fc s).
+Proof.
+  unfold write_in. destruct (save_in fc s) as [s' [u|e]]; [|reflexivity].
+  destruct d as [[n|] got|f]; try reflexivity. simpl.
+  destruct (Nat.ltb n (length (ser (stree s')))); reflexivity.
+Qed.
+
+(* a failed write to a path: the destination is as it was, and so is the model *)
+Theorem failed_write_leaves_destination fc f s s' d' e :
+  write_in fc (DPath f) s = (s', d', Raise e) ->
+  d' = DPath f /\ view (smodel s') = view (smodel s).
+Proof.
+  intro E. assert (V := save_keeps_view fc s). rewrite <- write_in_state with (d := DPath f) in V.
+  rewrite E in V. simpl in V. split; [|exact V].
+  unfold write_in in E. destruct (save_in fc s) as [s1 [u|e1]]; inversion E; reflexivity.
+Qed.
+
+(* any failed write, whatever the destination: the model is as it was *)
+Theorem failed_write_keeps_model fc d s : view (smodel (fst (fst (write_in fc d s)))) = view (smodel s).
+Proof. rewrite write_in_state. apply save_keeps_view. Qed.
+
+(* view-equal models agree on everything the hypotheses talk about *)
+Lemma view_tags m1 m : view m1 = view m -> map ltag (mlibs m1) = map ltag (mlibs m) /\ mscene m1 = mscene m.
+Proof.
+  unfold view. intro V. inversion V as [[A L S]]. split; [|reflexivity]. clear - L.
+  revert L. generalize (mlibs m). induction (mlibs m1) as [|l1 r1 IH]; intros [|l r] L; try discriminate; [reflexivity|].
+  simpl in L. inversion L. simpl. f_equal; [assumption|apply IH; assumption].
+Qed.
+
+Lemma view_managed m1 m : view m1 = view m -> forall t, managed m1 t = managed m t.
+Proof.
+  intros V t. destruct (view_tags _ _ V) as [T _]. unfold managed. f_equal.
+  assert (X : forall libs, existsb (fun l => N.eqb (ltag l) t) libs = existsb (fun x => N.eqb x t) (map ltag libs)).
+  { induction libs as [|l r IH]; [reflexivity|]. simpl. rewrite IH. reflexivity. }
+  rewrite !X, T. reflexivity.
+Qed.
+
+Lemma view_wf_libs m1 m : view m1 = view m -> wf_libs m -> wf_libs m1.
+Proof. intros V. destruct (view_tags _ _ V) as [T _]. unfold wf_libs. rewrite T. exact (fun x => x). Qed.
+
+Lemma view_wf_root m1 m t : view m1 = view m -> wf_root m t -> wf_root m1 t.
+Proof. intros V W x M. apply W. rewrite <- (view_managed _ _ V). exact M. Qed.
+
+Lemma view_healthy m1 m : view m1 = view m -> healthy m -> healthy m1.
+Proof.
+  intros V H. destruct (view_tags _ _ V) as [_ S]. unfold healthy in *. rewrite S.
+  destruct (mscene m) as [sid|]; [|exact I]. rewrite <- H. unfold scenes_of.
+  unfold view in V. inversion V as [[A L S']]. clear - L.
+  revert L. generalize (mlibs m). induction (mlibs m1) as [|l1 r1 IH]; intros [|l r] L; try discriminate; [reflexivity|].
+  simpl in L. inversion L as [[VT VR VA Q]]. simpl. rewrite VT.
+  destruct (N.eqb (ltag l) a_library_visual_scenes); [|apply IH; assumption].
+  simpl. rewrite !existsb_app. f_equal; [|apply IH; assumption].
+  clear - VA. revert VA. generalize (larr l). induction (larr l1) as [|o1 q1 IHq]; intros [|o q] VA; try discriminate; [reflexivity|].
+  simpl in VA. inversion VA as [[U I C Q]]. simpl. rewrite I. f_equal. apply IHq. exact Q.
+Qed.
+
+(* the invariant of a history of attempts *)
+Definition hist_inv (s0 s : state) : Prop :=
+  view (smodel s) = view (smodel s0) /\ wf_root (smodel s0) (stree s) /\ save s = save s0.
+
+Lemma hist_step s0 s e :
+  wf_libs (smodel s0) -> healthy (smodel s0) -> hist_inv s0 s -> hist_inv s0 (run_event s e).
+Proof.
+  intros WL H (V & W & S).
+  assert (X : run_event s e = fst (save_in (match e with ESave fc => fc | EWrite fc _ => fc end) s)).
+  { destruct e; simpl; [reflexivity|apply write_in_state]. }
+  rewrite X. set (fc := match e with ESave fc => fc | EWrite fc _ => fc end).
+  split; [|split].
+  - rewrite save_keeps_view. exact V.
+  - destruct s as [m t]. simpl in *. apply (view_wf_root _ _ _ (eq_sym V)).
+    apply wf_root_save. apply (view_wf_root _ _ _ V). exact W.
+  - rewrite <- S. apply save_confluent.
+    + apply (view_wf_libs _ _ V WL).
+    + apply (view_wf_root _ _ _ V W).
+    + apply (view_healthy _ _ V H).
+Qed.
+
+Lemma hist_all s0 es : wf_libs (smodel s0) -> wf_root (smodel s0) (stree s0) -> healthy (smodel s0) ->
+  hist_inv s0 (run_events s0 es).
+Proof.
+  intros WL WR H. unfold run_events.
+  assert (I0 : hist_inv s0 s0) by (split; [reflexivity|split; [exact WR|reflexivity]]).
+  revert I0. generalize s0 at 2 4. induction es as [|e r IH]; intros s I0; [exact I0|].
+  simpl. apply IH. apply hist_step; assumption.
+Qed.
+
+(* after any history of attempts - complete saves, writes to sinks failing after any number of
+   bytes, attempts failing in validation at any point, in any order and number - a write to a
+   healthy destination delivers exactly what it delivers when nothing was ever attempted *)
+Theorem write_after_failures s es :
+  wf_libs (smodel s) -> wf_root (smodel s) (stree s) -> healthy (smodel s) ->
+  healthy_bytes (run_events s es) = healthy_bytes s /\
+  view (smodel (run_events s es)) = view (smodel s).
+Proof.
+  intros WL WR H. destruct (hist_all s es WL WR H) as (V & _ & S). split; [|exact V].
+  unfold healthy_bytes, write, write_in. fold (save (run_events s es)). fold (save s). rewrite S. reflexivity.
+Qed.
+
+(* and that write does succeed *)
+Lemma healthy_bytes_some s : healthy (smodel s) -> exists b, healthy_bytes s = Some b.
+Proof.
+  intro H. destruct s as [m t]. unfold healthy_bytes, write, write_in. fold (save (St m t)).
+  rewrite (save_healthy m t H). simpl. eexists; reflexivity.
+Qed.
